@@ -23,8 +23,12 @@ def load_registry():
 
 
 def load_unit(modname):
+    # "module" or "module:ATTR"
+    attr = "UNIT"
+    if ":" in modname:
+        modname, attr = modname.split(":")
     mod = importlib.import_module("contracts." + modname)
-    return mod.UNIT
+    return getattr(mod, attr)
 
 
 def expect_path(unit_name):
@@ -93,10 +97,39 @@ def write_replay(prop, unit_name, obligation, failure, res, fname):
     return path
 
 
+def run_unit_stable(unit, tier, seed):
+    """Deterministic first run (solver seed 0). A failed obligation is only believed if it also fails
+    under two other solver seeds (derived from VERIF_SEED); one that flips is 'unstable' = undecided,
+    never a violation (DESIGN 2.3). The thorough tier always runs the three seeds."""
+    res = verus_run.run_unit(unit, tier, 0)
+    if res["status"] == "undecided":
+        return res
+    failing = [n for n, e in res["functions"].items() if not e["ok"] and n not in unit.canaries]
+    if not failing and tier != "thorough":
+        return res
+    extra_seeds = [1 + (seed * 7919 + 13) % 997, 1 + (seed * 104729 + 71) % 991]
+    res["seeds"] = [0] + extra_seeds
+    for sd in extra_seeds:
+        r2 = verus_run.run_unit(unit, tier, sd, keep_name=unit.name.replace("-", "_") + "_seed%d" % sd)
+        res["wall_s"] += r2["wall_s"]
+        res["solver_ms"] = (res.get("solver_ms") or 0) + (r2.get("solver_ms") or 0)
+        if r2["status"] == "undecided":
+            continue
+        for n, e in res["functions"].items():
+            e2 = r2["functions"].get(n)
+            if e2 is None or n in unit.canaries:
+                continue
+            if e["ok"] != e2["ok"]:
+                e["undecided"] = "unstable: verdict flips with solver seed %d" % sd
+                e["failures"] = []
+                e["ok"] = False
+    return res
+
+
 def run_units_parallel(units, tier, seed, jobs=8):
     results = {}
     with cf.ThreadPoolExecutor(max_workers=jobs) as ex:
-        futs = {ex.submit(verus_run.run_unit, u, tier, seed): u for u in units}
+        futs = {ex.submit(run_unit_stable, u, tier, seed): u for u in units}
         for fu in cf.as_completed(futs):
             u = futs[fu]
             results[u.name] = fu.result()
@@ -229,6 +262,9 @@ def check_property(prop, tier, seed):
             fnrows.append(row)
             if e["ok"]:
                 discharged += 1
+                continue
+            if e.get("undecided") and not e["failures"]:
+                undecided.append("%s::%s: %s" % (uname, name, e["undecided"]))
                 continue
             for oname, failure in obligation_names(uname, name, e):
                 kf = [k for k in known if k.get("property") == prop and k.get("obligation") == oname and k.get("status", "open") == "open"]
